@@ -206,7 +206,7 @@ def main():
     prop = prop_text(pid)
     changed = changed_sources(prop)
     if changed:                                  # the code this property is anchored in is not the pinned one: look harder
-        os.environ['VERIF_BOOST'] = '4'
+        os.environ['VERIF_BOOST'] = os.environ.get('VERIF_BOOST_FACTOR', '4')
     build = build_property(pid)
     broken = list(build['broken'])
     # correspondence
